@@ -55,11 +55,12 @@ Definition unsupported {A} : res A := Err (EJose UnsupportedAlgorithmError).
 Definition keys_dict (ks : list str) : pv := PDict (map (fun k => (k, PNone)) ks).
 
 (* JWERegistry._check_algorithm / the body of JWSRegistry.get_alg:
-     if name not in registry: raise UnsupportedAlgorithmError
+     if not isinstance(name, str) or name not in registry: raise UnsupportedAlgorithmError
      if self.allowed:  if name not in self.allowed: raise UnsupportedAlgorithmError
      else:             if name not in self.recommended: raise UnsupportedAlgorithmError *)
 Definition check_algorithm (allowed : pv) (recommended : list string) (keys : list str)
            (name : pv) : res unit :=
+  if negb (is_str name) then unsupported else
   do present <- py_in name (keys_dict keys);
   if negb present then unsupported
   else if py_truth allowed then
